@@ -101,10 +101,12 @@ class G:
 
     # ---- operators
     def conv(self, x, oc, k=3, stride=1, padding=PAD_SAME, act=ACT_NONE, dil=1, per_channel=True, oscale=None, ozp=None,
-             kw=None, stride_w=None, wdist=None, bias=True, wzp=None, bias64=None, share_w=None, share_b=None, dil_w=None):
+             kw=None, stride_w=None, wdist=None, bias=True, wzp=None, bias64=None, share_w=None, share_b=None, dil_w=None, groups=1):
         r = self.rng
         X = self.T(x)
         _, h, w, ic = X.shape
+        assert ic % groups == 0 and oc % groups == 0
+        ic //= groups  # grouped convolution: the filter holds IFM depth / groups channels, the groups are implied by the two depths
         kh, kw = k, (kw or k)
         sh, sw = stride, (stride_w or stride)
         dil_w = dil_w or dil
@@ -1308,6 +1310,26 @@ def fam_shape_ops(seed):
     return g.finish([out], "shape-ops", "exact")
 
 
+def fam_grouped_conv(seed):
+    """CONV_2D whose filter depth is a fraction of the IFM depth (grouped convolution: the compiler splits it into one convolution per group and concatenates),
+    per-tensor / per-channel scales, with and without bias, between ordinary operators.  Exact class."""
+    r = rng_for("grouped-conv", seed)
+    g = G(r, str(r.choice(["int8", "int8", "uint8"])))
+    groups = int(r.choice([2, 2, 4, 3]))
+    icg, ocg = int(r.choice([2, 4, 8])), int(r.choice([2, 4, 8, 16]))
+    h, w = int(r.choice([4, 6, 8])), int(r.choice([4, 6, 8]))
+    x = g.input([1, h, w, icg * groups])
+    if r.integers(0, 2):
+        x = g.conv(x, icg * groups, 1, 1, PAD_SAME, ACT_NONE)
+    k = int(r.choice([1, 3]))
+    y = g.conv(x, ocg * groups, k, int(r.choice([1, 1, 2])), int(r.choice([PAD_SAME, PAD_VALID])), int(r.choice([ACT_NONE, ACT_RELU])), per_channel=bool(r.integers(0, 2)),
+               bias=bool(r.integers(0, 3)), groups=groups)
+    g.kinds.append("grouped_conv")
+    if r.integers(0, 2):
+        y = g.pool(y, "maxpool", min(2, g.T(y).shape[1], g.T(y).shape[2]), 1, PAD_SAME)
+    return g.finish([y], "grouped-conv", "exact")
+
+
 def fam_approx_tail2(seed, tail=None):
     """second list of approximated tails (kept apart from approx-tail so that its seed -> tail assignment stays what the recorded runs used): EXP through an
     8-bit table with a free output quantisation, SQUARED_DIFFERENCE lowered to 32-bit elementwise arithmetic"""
@@ -1351,6 +1373,7 @@ FAMILIES = {
     "mixed-width": fam_mixed_width,
     "shape-ops": fam_shape_ops,
     "approx-tail2": fam_approx_tail2,
+    "grouped-conv": fam_grouped_conv,
 }
 
 
